@@ -25,6 +25,13 @@ impl CancelIo for CancelIoImpl {
     unsafe fn cancel(&self) -> Option<std::io::Result<()>> {
         if let Some(e) = self.0.take() {
             if let Some(co) = e.co.take() {
+                // the io is over for the coroutine, its timer must not fire into a later
+                // io on the same socket. we are not in the selector thread so the entry
+                // can't be removed, tell the timer function to ignore it as `del_fd` does
+                #[cfg(feature = "io_timeout")]
+                if let Some(h) = e.timer.borrow_mut().take() {
+                    h.with_mut_data(|value| value.data.event_data = std::ptr::null_mut());
+                }
                 get_scheduler().schedule(co);
                 return Some(Ok(()));
             }
